@@ -388,6 +388,7 @@ func (s *lease4) OnInvoke(w *World, dg *DG, inv *Invocation) {
 
 // OnReply checks that what goes out on the wire is the binding the plugin made.
 func (s *lease4) OnReply(w *World, dg *DG, r *Reply) {
+	checkC11(w, dg, r)
 	if r.Msg4 == nil || !relevant4(dg) {
 		return
 	}
